@@ -234,6 +234,10 @@ def rand_config(rng):
         ov["myst_inventories"] = {"key": ["nofile.inv", None]}
     if rng.random() < 0.15:
         ov["myst_url_schemes"] = ["http", "https", "mailto"]
+    if rng.random() < 0.3:
+        # suppress lists of every shape a user may write (entries without a dot, with several dots, wildcards, empty)
+        ov["myst_suppress_warnings"] = rng.choice([["myst.header"], ["a.b.c"], ["myst.*"], ["x"], ["myst.xref_missing.extra", "myst"], [""], ["."], ["a..b", "..."],
+                                                    ["autosectionlabel.guide.intro", "myst.strikethrough"]])
     return ov
 
 
@@ -246,6 +250,10 @@ def run(tier, seed, extra):
         t0 = time.time()
         cnt = 0
         allext = {"myst_enable_extensions": EXTS, "myst_substitutions": {"key": "v", "key2": "{{ key2 }}"}}
+        for sup in (["a.b.c"], ["myst.header.x", "."], ["", "x"], ["myst.*", "a.*.b"]):
+            col.case(("suppress", tuple(sup)))
+            check_doc(col, "# T\n\n### skipped level\n\n[](#nope) ~~s~~ {unknownrole}`x`\n", dict(allext, myst_suppress_warnings=sup), d)
+            cnt += 1
         for b in BLOCKS:
             for ov in ({}, allext):
                 col.case(("single", b, bool(ov)))
